@@ -376,7 +376,10 @@ def snapshot(cx):
     def val(s):
         return a.expr_rvalue(s.data["stmt"]["rv"], s.at) if "stmt" in s.data else a.expr_call(s.data["term"], s.at)
     idx = [val(s) for s in by.get("SnapshotMetadata.index", [])]
-    cx.check(len(idx) == 1 and is_f(idx[0], "HardState.commit"), "index", "snapshot index := hard_state.commit (found %s)" % [show(v) for v in idx])
+    from ..idioms import as_max
+    # (the "never behind the request" fix-up may be folded in: max(hard_state.commit, request_index))
+    folded = len(idx) == 1 and as_max(idx[0]) is not None and sum(1 for x in as_max(idx[0]) if is_f(x, "HardState.commit")) == 1 and sum(1 for x in as_max(idx[0]) if x[0] == "param") == 1
+    cx.check((len(idx) == 1 and is_f(idx[0], "HardState.commit")) or folded, "index", "snapshot index := hard_state.commit (found %s)" % [show(v) for v in idx])
     tm = [s for s in by.get("SnapshotMetadata.term", [])]
     cx.check(len(tm) == 1, "term:one", "the snapshot term is assigned once")
     g = cx.pg(sf)
@@ -410,4 +413,11 @@ def snapshot(cx):
                     return l[0] == "is" and l[2] is True and l[1][0] == "bin" and l[1][1] == "Lt" and is_f(l[1][2], "SnapshotMetadata.index") and l[1][3] == v and \
                         not any(x[0] == "field" and x[2] == "MemStorageCore.snapshot_metadata" for x in walk(l[1][2]))
                 ok = require(cx, s, cx.site_key(s, "raise"), "the snapshot index is raised to request_index only if it is below it", behind, kill=False)
+    if not ok and folded:
+        # the core builder took the request index in: Storage::snapshot must pass its own request_index on
+        for c in cx.prog.call_sites_of(cx.sfx("MemStorageCore::snapshot")):
+            if c.fn is f:
+                pi = [x for x in as_max(idx[0]) if x[0] == "param"][0][1]
+                a_ = call_args(cx, c)
+                ok = pi - 1 < len(a_) and a_[pi - 1][0] == "param"
     cx.check(ok, "request_index", "Storage::snapshot never returns an index below the requested one")
